@@ -16,7 +16,7 @@ LEVEL = "exploration"
 TECHNIQUE = "runtime monitor: global timeline (handlers, notifications, observations) of real runs; sim statistics vs ordinary statistics fed the post-warm-up observations (bit-exact) and exact rational time average; payload-vs-getter subscriber"
 RULE = ("seeded model programs (float/int/Duration clocks, warm-up in {0, inside, = end}, ties with priorities 1-10 at "
         "the warm-up instant) with SimCounter/SimTally/SimWeightedTally/SimPersistent created in construct_model, fed "
-        "by direct register and by data events from a producer, optionally interrupted by forced pauses; a sibling model with the same statistic keys is initialised before the key look-ups are repeated; non-trivial "
+        "by direct register and by data events from a producer, optionally interrupted by forced pauses, 30% with one-shot warm-up listeners subscribed before the statistics; a sibling model with the same statistic keys is initialised before the key look-ups are repeated; non-trivial "
         "= >=1 observation before and >=2 after the warm-up notification for some statistic and the warm-up strictly "
         "inside the run; distinct = canonical program hash")
 ASSUMPTIONS = ["an observation made at exactly the warm-up time by an event that ran before the warm-up notification (priority 10, "
@@ -39,6 +39,9 @@ def gen_case(rng, tier, i):
     prog = gen_program(rng, clock=clock, n_events=rng.randint(6, 40), with_bad=False, horizon=length, warm=warm,
                        with_cancel=rng.random() < 0.3)
     add_stats(rng, prog, watch=True, density=0.9)
+    if rng.random() < 0.3:
+        from vlib.proggen import add_oneshot_simlisteners
+        add_oneshot_simlisteners(rng, prog)     # the model's own warm-up listeners come and go; every statistic still gets its reset
     return {"prog": prog, "pauses": [rng.randint(1, 6) for _ in range(rng.choice([0, 0, 1, 2]))]}
 
 
